@@ -649,6 +649,74 @@ pub fn detectors(m: &Model, ctx: &mut Ctx, rule: &str) {
             }
         }
     }
+    // the same question one level down: Constraint / SubtypeElements / ElementOrSetOperation::has_cross_reference, dispatched by
+    // the receiver's variant (three methods of one name) and evaluated on small constraint trees
+    {
+        let impls: Vec<(&str, Vec<String>, Option<&crate::model::FnInfo>)> = ["Constraint", "SubtypeElements", "ElementOrSetOperation"].iter().map(|t| {
+            (*t, m.find_enum(t).map(|e| e.variants.clone()).unwrap_or_default(), m.fns.iter().find(|f| f.name == "has_cross_reference" && f.self_ty.as_deref() == Some(*t)))
+        }).collect();
+        if impls.iter().any(|(_, v, f)| v.is_empty() || f.is_none()) {
+            ctx.fail_closed(rule, "anchor not found: has_cross_reference of Constraint / SubtypeElements / ElementOrSetOperation");
+        } else {
+            let impls2: Vec<(Vec<String>, syn::Block)> = impls.iter().map(|(_, v, f)| (v.clone(), f.unwrap().block.clone())).collect();
+            let hook3 = move |ev: &Evaluator, name: &str, a: &[Val]| -> Option<Result<Val, String>> {
+                match (name, a.first()) {
+                    (".has_cross_reference", Some(Val::Ctor(cn, _, _))) => {
+                        let (_, block) = impls2.iter().find(|(vs, _)| vs.contains(cn))?;
+                        let mut env = Env::new();
+                        env.insert("self".into(), a[0].clone());
+                        Some(ev.eval_fn_body(block, &mut env))
+                    }
+                    // a value is a reference when it is written as an identifier
+                    (".is_elsewhere_declared", Some(Val::Ctor(cn, _, _))) => Some(Ok(Val::Bool(cn == "ElsewhereDeclaredValue"))),
+                    (".contains_constraint_reference", Some(_)) | (".references_class_by_name", Some(_)) => Some(Ok(Val::Bool(false))),
+                    _ => None,
+                }
+            };
+            let ev3 = Evaluator { consts: &consts, call_hook: &hook3, inline: None };
+            let refv = || Val::Ctor("ElsewhereDeclaredValue".into(), vec![], [("identifier".to_string(), Val::Str("max".into()))].into_iter().collect());
+            let lit = || Val::Ctor("Integer".into(), vec![Val::int(5)], Map::new());
+            let single = |v: Val| named("SingleValue", vec![("value", v), ("extensible", Val::Bool(false))]);
+            let range = |a: Option<Val>, b: Option<Val>| named("ValueRange", vec![("min", a.map(Val::some).unwrap_or(Val::none())), ("max", b.map(Val::some).unwrap_or(Val::none())), ("extensible", Val::Bool(false))]);
+            let element = |e: Val| Val::Ctor("Element".into(), vec![e], Map::new());
+            let setop = |base: Val, operant: Val| Val::Ctor("SetOperation".into(), vec![named("SetOperation", vec![("base", base), ("operator", Val::ctor("Union")), ("operant", operant)])], Map::new());
+            let subtype = |set: Val| Val::Ctor("Subtype".into(), vec![named("ElementSetSpecs", vec![("set", set), ("extensible", Val::Bool(false))])], Map::new());
+            let size = |inner: Val| Val::Ctor("SizeConstraint".into(), vec![inner], Map::new());
+            let from = |inner: Val| Val::Ctor("PermittedAlphabet".into(), vec![inner], Map::new());
+            let single_type = |cs: Vec<Val>| Val::Ctor("SingleTypeConstraint".into(), vec![Val::List(cs)], Map::new());
+            let multi = |groups: Vec<Vec<Val>>| Val::Ctor("MultipleTypeConstraints".into(), vec![named("InnerTypeConstraint", vec![("constraints", Val::List(groups.into_iter().map(|g| named("NamedConstraint", vec![("constraints", Val::List(g))])).collect()))])], Map::new());
+            let cases: Vec<(&str, Val, bool)> = vec![
+                ("(5)", subtype(element(single(lit()))), false),
+                ("(max)", subtype(element(single(refv()))), true),
+                ("(0..5)", subtype(element(range(Some(lit()), Some(lit())))), false),
+                ("(0..max)", subtype(element(range(Some(lit()), Some(refv())))), true),
+                ("(min..5)", subtype(element(range(Some(refv()), Some(lit())))), true),
+                ("(5 | max)", subtype(setop(single(lit()), element(single(refv())))), true),
+                ("(max | 5)", subtype(setop(single(refv()), element(single(lit())))), true),
+                ("(5 | 6)", subtype(setop(single(lit()), element(single(lit())))), false),
+                ("(SIZE (0..max))", subtype(element(size(element(range(Some(lit()), Some(refv())))))), true),
+                ("(SIZE (0..5))", subtype(element(size(element(range(Some(lit()), Some(lit())))))), false),
+                ("(FROM (\"a\" | ref))", subtype(element(from(setop(single(lit()), element(single(refv())))))), true),
+                ("(WITH COMPONENT ((5)(max)))", subtype(element(single_type(vec![subtype(element(single(lit()))), subtype(element(single(refv())))]))), true),
+                ("(WITH COMPONENT ((5)(6)))", subtype(element(single_type(vec![subtype(element(single(lit()))), subtype(element(single(lit())))]))), false),
+                ("(WITH COMPONENTS { a (5), b (6)(max) })", subtype(element(multi(vec![vec![subtype(element(single(lit())))], vec![subtype(element(single(lit()))), subtype(element(single(refv())))]]))), true),
+                ("(WITH COMPONENTS { a (5), b (6) })", subtype(element(multi(vec![vec![subtype(element(single(lit())))], vec![subtype(element(single(lit())))]]))), false),
+                ("a parameter", Val::Ctor("Parameter".into(), vec![Val::Opaque("p".into())], Map::new()), true),
+            ];
+            for (desc, c, want) in cases {
+                n += 1;
+                ctx.oblige(rule, &format!("has_cross_reference:{}", desc), true);
+                let mut env = Env::new();
+                env.insert("self".into(), c);
+                match ev3.eval_fn_body(&impls[0].2.unwrap().block, &mut env) {
+                    Ok(Val::Bool(b)) if b == want => {}
+                    Ok(Val::Bool(b)) => { ctx.violate(rule, &format!("has_cross_reference:{}", if want { "missed" } else { "false-positive" }), &impls[0].2.unwrap().file, impls[0].2.unwrap().line, &format!("has_cross_reference says {} for the constraint {}: {}", b, desc, if want { "the reference in it is never resolved (the definition is not visited by the linker)" } else { "no reference is in it" })); break }
+                    Ok(o) => { ctx.fail_closed(rule, &format!("[has_cross_reference on {}]: {}", desc, o.show())); break }
+                    Err(e) => { ctx.fail_closed(rule, &format!("[has_cross_reference on {}]: {}", desc, e)); break }
+                }
+            }
+        }
+    }
     // a type is a parameterized template when it has a parameter list — or a component constrained by a parameter
     if let Some(f) = m.fns.iter().find(|f| f.name == "is_parameterized" && f.self_ty.as_deref() == Some("ToplevelDefinition")) {
         ctx.func(&f.key);
